@@ -19,8 +19,8 @@ EXTENDS Integers
 \* @type: (Int, Int) => Int;
 Ceil(a, b)  == (a + b - 1) \div b
 Floor(a, b) == a \div b
-Min(a, b)   == IF a < b THEN a ELSE b
-Max(a, b)   == IF a > b THEN a ELSE b
+Min2(a, b)  == IF a < b THEN a ELSE b
+Max2(a, b)  == IF a > b THEN a ELSE b
 
 \* number of symbols and number of blocks
 T(L, E)    == Ceil(L, E)
